@@ -32,6 +32,13 @@ func init() {
 		"unicode.IsLetter":      libIsLetter,
 		"math.Log":              libLog,
 		"sort.SliceStable":      libSortSlice,
+		"bufio.NewScanner":          libNewScanner,
+		"(*bufio.Scanner).Buffer":   libScannerBuffer,
+		"(*bufio.Scanner).Scan":     libScannerScan,
+		"(*bufio.Scanner).Bytes":    libScannerBytes,
+		"(*bufio.Scanner).Text":     libScannerText,
+		"(*bufio.Scanner).Err":      libScannerErr,
+		"strings.Fields":            libFields,
 		"sort.Slice":            libSortSlice,
 	}
 }
@@ -49,7 +56,9 @@ func libNoop(x *Exec, n *ast.CallExpr, recv *Val, recvExpr ast.Expr, st *State, 
 
 // evalQuiet evaluates an argument only for its safety obligations; failures to model it are ignored (diagnostic strings).
 func (x *Exec) evalQuiet(e ast.Expr, st *State, env *Env) {
+	saved := x.c.inContract
 	defer func() {
+		x.c.inContract = saved
 		if r := recover(); r != nil {
 			if _, ok := r.(unsupportedErr); !ok {
 				panic(r)
@@ -121,6 +130,9 @@ func libStrFun(name string) libHandler {
 	return func(x *Exec, n *ast.CallExpr, recv *Val, recvExpr ast.Expr, st *State, env *Env) Val {
 		v := x.eval(n.Args[0], st, env)
 		x.c.declare(name, fmt.Sprintf("(declare-fun %s (Str) Str)", name))
+		if name == "gs.upper" {
+			x.c.declare(name+".len", fmt.Sprintf("(assert (forall ((s Str)) (! (= (gs.len (%s s)) (gs.len s)) :pattern ((%s s)))))", name, name))
+		}
 		x.c.trusted[name+": uninterpreted"] = true
 		return Val{T: app(name, v.T), Ty: tString}
 	}
@@ -185,6 +197,18 @@ func libIsLetter(x *Exec, n *ast.CallExpr, recv *Val, recvExpr ast.Expr, st *Sta
 
 func isLetterBV(b string) string {
 	return or(and(app("bvule", "#x41", b), app("bvule", b, "#x5a")), and(app("bvule", "#x61", b), app("bvule", b, "#x7a")))
+}
+
+// resolveAlias follows name = name definitions
+func (c *Ctx) resolveAlias(t string) string {
+	for i := 0; i < 8; i++ {
+		d, ok := c.defs[t]
+		if !ok || strings.HasPrefix(d, "(") {
+			return t
+		}
+		t = d
+	}
+	return t
 }
 
 // resolveDef follows "name = term" definitions introduced by define()
@@ -294,4 +318,78 @@ func libSortSlice(x *Exec, n *ast.CallExpr, recv *Val, recvExpr ast.Expr, st *St
 	st.gh["g:lastperm"] = Val{T: p, Ty: tInt}
 	x.lastPerm = [2]string{p, q}
 	return Val{}
+}
+
+
+// bufio.Scanner with the default ScanLines split: a finite ghost sequence of lines (byte slices in the heap, arbitrary
+// contents), a position, and an arbitrary final error.
+func libNewScanner(x *Exec, n *ast.CallExpr, recv *Val, recvExpr ast.Expr, st *State, env *Env) Val {
+	c := x.c
+	h := c.freshConst("scanner", "Int")
+	arr := c.freshConst("lines", "(Array Int Slice)")
+	cnt := c.freshConst("lines.n", "Int")
+	c.assume("true", app(">=", cnt, "0"))
+	st.gh["scan:"+h] = Val{Seq: &SeqVal{Arr: arr, N: cnt, Elem: types.NewSlice(tByte), ESort: sortSlice}}
+	st.gh["scanpos:"+h] = Val{T: "0", Ty: tInt}
+	x.heap(st, sortBV8)
+	// every line is a well-formed slice over an array that exists before the call
+	c.assumes = append(c.assumes, fmt.Sprintf("(forall ((j Int)) (! (and (< 0 (s.ref (select %s j))) (< (s.ref (select %s j)) %s) (<= 0 (s.off (select %s j))) (<= 0 (s.len (select %s j))) (<= (s.len (select %s j)) (s.cap (select %s j)))) :pattern ((select %s j))))", arr, arr, st.alloc, arr, arr, arr, arr, arr))
+	c.trusted["bufio.Scanner (ScanLines): yields a finite sequence of lines with arbitrary bytes, then Scan() = false; Err() arbitrary"] = true
+	x.scannerHandle = h
+	return Val{T: h, Ty: env.info.TypeOf(n)}
+}
+
+func libScannerBuffer(x *Exec, n *ast.CallExpr, recv *Val, recvExpr ast.Expr, st *State, env *Env) Val {
+	for _, a := range n.Args {
+		x.eval(a, st, env)
+	}
+	return Val{}
+}
+
+func scannerState(x *Exec, recv *Val, st *State) (string, Val, Val) {
+	if recv == nil {
+		panic(unsupported("scanner method without receiver"))
+	}
+	h := x.c.resolveAlias(recv.T)
+	seq, ok := st.gh["scan:"+h]
+	if !ok {
+		panic(unsupported("scanner without ghost state"))
+	}
+	return h, seq, st.gh["scanpos:"+h]
+}
+
+func libScannerScan(x *Exec, n *ast.CallExpr, recv *Val, recvExpr ast.Expr, st *State, env *Env) Val {
+	h, seq, pos := scannerState(x, recv, st)
+	more := x.c.define("more", "Bool", app("<", pos.T, seq.Seq.N))
+	st.gh["scanpos:"+h] = Val{T: x.c.define("scanpos", "Int", ite(more, add(pos.T, "1"), pos.T)), Ty: tInt}
+	return Val{T: more, Ty: tBool}
+}
+
+func libScannerBytes(x *Exec, n *ast.CallExpr, recv *Val, recvExpr ast.Expr, st *State, env *Env) Val {
+	_, seq, pos := scannerState(x, recv, st)
+	v := Val{T: x.c.define("line", sortSlice, app("select", seq.Seq.Arr, sub(pos.T, "1"))), Ty: types.NewSlice(tByte)}
+	x.assumeWFAtom(st, v)
+	return v
+}
+
+func libScannerText(x *Exec, n *ast.CallExpr, recv *Val, recvExpr ast.Expr, st *State, env *Env) Val {
+	b := libScannerBytes(x, n, recv, recvExpr, st, env)
+	return x.convert(tString, b, st)
+}
+
+func libScannerErr(x *Exec, n *ast.CallExpr, recv *Val, recvExpr ast.Expr, st *State, env *Env) Val {
+	return Val{T: x.c.freshConst("scanerr", sortErr), Ty: tError}
+}
+
+// strings.Fields: a fresh slice of strings of unknown length >= 0 determined by the argument
+func libFields(x *Exec, n *ast.CallExpr, recv *Val, recvExpr ast.Expr, st *State, env *Env) Val {
+	c := x.c
+	v := x.eval(n.Args[0], st, env)
+	c.declare("gs.nfields", "(declare-fun gs.nfields (Str) Int)")
+	c.declare("gs.fields", "(declare-fun gs.fields (Str) (Array Int Str))")
+	c.declare("gs.nfields.ax", "(assert (forall ((s Str)) (! (>= (gs.nfields s) 0) :pattern ((gs.nfields s)))))")
+	ref := x.allocArray(st, sortStr, app("gs.fields", v.T))
+	ln := app("gs.nfields", v.T)
+	c.trusted["strings.Fields: uninterpreted (number of fields >= 0, field contents a function of the argument)"] = true
+	return Val{T: c.define("sl", sortSlice, app("mkSlice", ref, "0", ln, ln)), Ty: types.NewSlice(tString)}
 }
